@@ -85,15 +85,7 @@ def is_float(string: str) -> bool:
 
 def is_connected(current_token: "Token", previous_token: "Token") -> bool:
     """Whether 2 tokens are next to each other"""
-    if not previous_token._macro_length:
-        return (
-            previous_token.line == current_token.line
-            and previous_token.col + previous_token.length == current_token.col
-        )
-    return previous_token.line == current_token.line and current_token.col in {
-        previous_token.col + previous_token.length,
-        previous_token.col + previous_token._macro_length,
-    }
+    return previous_token.end == (current_token.line, current_token.col)
 
 
 def __parse_to_string(
